@@ -7,7 +7,7 @@ from contracts.coverage import CpStub
 from contracts.rangelist import member
 
 
-@contract("wildcard.single.sample", ["C19"],
+@contract("wildcard.single.sample", ["C19", "C11"],
           ["vsc.model.coverpoint_bin_single_wildcard_model.CoverpointBinSingleWildcardModel.sample",
            "vsc.model.wildcard_binspec.WildcardBinspec.__init__"],
           lambda tier, seed: [(k,) for k in (1, 2, 3)], backend="bv",
